@@ -1,4 +1,10 @@
+#[cfg(mrecordlog_verif)]
+use std::time::Duration;
+#[cfg(not(mrecordlog_verif))]
 use std::time::{Duration, Instant};
+
+#[cfg(mrecordlog_verif)]
+use crate::verif_hooks::Instant;
 
 #[derive(Copy, Clone, Debug, PartialEq, Eq)]
 pub enum PersistAction {
